@@ -22,6 +22,10 @@ Sub-checks
           eigh's contract (the theorem's hypothesis) is checked numerically.
   certself  tripwire for the certificate code itself: wrong projections must be rejected, exact ones accepted.
 
+Translator tie (regen_closures): gen/c04_py2coq.py regenerates, from the CURRENT source, the flag handling / argument forwarding /
+  callee names of the six QOperation.func_calc_proj_* factories and the assembly rule of MProcess.calc_proj_ineq_constraint_with_var;
+  coq/gen/C04_Equiv.v (11 theorems) is re-checked against that text on every run; if the tie breaks the `closures` sweep is widened.
+
 Tolerances (documented constants)
   TOL_EQ    1e-9 * max(1, scale)        model vs implementation, equality projections (rounding is ~1e-16*scale)
   CERT_REL  1e-10, CERT_ATOL 100        certificate slack: eps = CERT_REL*s + CERT_ATOL*atol, delta = eps*s with
@@ -710,7 +714,7 @@ def ineq_plan(ctx):
 
 
 def sub_ineq(ctx):
-    cases = gen_ineq_cases(ctx, ctx.n(220, 800), ineq_plan(ctx))
+    cases = gen_ineq_cases(ctx, ctx.n(190, 800), ineq_plan(ctx))
     if not ctx.quick:
         # qubit x qutrit gates / instruments: 36 x 36 Choi matrices, the exact decision takes several seconds each
         cases += gen_ineq_cases(ctx, 2, [("gate", "qt", 1)]) + gen_ineq_cases(ctx, 1, [("gate", "tq", 1)]) + gen_ineq_cases(ctx, 1, [("mprocess", "qt", 1)])
@@ -867,7 +871,11 @@ def chk_closures(ctx, case):
                 for fname, mk, want, want2, tl in table:
                     v = var0.copy()
                     try:
-                        out = np.array(mk()(v), dtype=np.float64)
+                        clo = mk()
+                        out = np.array(clo(v), dtype=np.float64)
+                        # history: the SAME closure object is used again on another point and then on the first one: no hidden state
+                        clo(var0 + scale * nrng.normal(size=var0.size))
+                        again = np.array(clo(var0.copy()), dtype=np.float64)
                     except Exception as e:
                         if is_truncate_error(e):
                             raise
@@ -876,6 +884,9 @@ def chk_closures(ctx, case):
                         continue
                     if not np.array_equal(v, var0):
                         ctx.violation("closures", "QOperation." + fname, "mutates-argument", "closure modified its var argument (%s)" % combo, dict(case, own=own, req=FLAG_NAME[req]))
+                    if not np.array_equal(again, out):
+                        ctx.violation("closures", "QOperation." + fname, "depends-on-call-history",
+                                      "the same closure returns a different point (max change %.3e) for the same var after having been called on another var (%s)" % (maxabs(again, out), combo), dict(case, own=own, req=FLAG_NAME[req]))
                     dev = max(maxabs(out, want), maxabs(out, want2))
                     if dev > tl:
                         ctx.violation("closures", "QOperation." + fname, "ignores-requested-argument" if (req is not None and req != own and maxabs(out, want) > tl) else "object-vs-variable",
@@ -897,7 +908,7 @@ def sub_closures(ctx):
     cases = []
     plan = [("state", "1q"), ("povm", "1q"), ("gate", "1q"), ("mprocess", "1q"), ("state", "1t"), ("povm", "1t"), ("gate", "1t"), ("state", "2q"),
             ("povm", "2q"), ("mprocess", "1q"), ("gate", "1q"), ("state", "qt")]
-    for i in range(ctx.n(24, 160)):
+    for i in range(96 if getattr(ctx, "c04_tie_broken", False) else ctx.n(24, 160)):
         T, sk = plan[i % len(plan)]
         d = get_sys(sk).dim
         m = rng.randint(2, 4) if T in ("povm", "mprocess") else 1
@@ -959,7 +970,7 @@ def chk_eigclip(ctx, case):
 def sub_eigclip(ctx):
     plan = [("state", "1q", 3), ("state", "1t", 3), ("state", "2q", 3), ("state", "qt", 2), ("povm", "1q", 3), ("povm", "1t", 3), ("povm", "2q", 2),
             ("gate", "1q", 4), ("gate", "1t", 2), ("gate", "2q", 0.7), ("mprocess", "1q", 3), ("mprocess", "1t", 0.7)]
-    cases = gen_ineq_cases(ctx, ctx.n(60, 400), plan)
+    cases = gen_ineq_cases(ctx, ctx.n(50, 400), plan)
     ctx.sample("eigclip", dict(cases[0], data=cases[0]["data"][:8]))
     ctx.run_cases("eigclip", chk_eigclip, cases)
 
@@ -1029,6 +1040,60 @@ SUBS = [("corpus", sub_corpus), ("eq", sub_eq), ("ineq", sub_ineq), ("closures",
 FNS = {"eq": chk_eq, "ineq": chk_ineq, "closures": chk_closures, "errors": chk_errors, "large": chk_large, "eigclip": chk_eigclip, "certself": chk_certself}
 
 
+# ---------------------------------------------------------------------------------- translator tie (closure factories)
+def regen_closures(ctx):
+    """regenerate (gen/c04_py2coq.py) the Gallina text of the flag handling / argument forwarding / callees of the six
+    QOperation.func_calc_proj_* factories and of the assembly rule of MProcess.calc_proj_ineq_constraint_with_var from the CURRENT
+    source, compile it, and re-check coq/gen/C04_Equiv.v against it (protocol of flow.regen_check with this property's own
+    translator).  returns (ok, info)"""
+    import os, re, shutil, subprocess, sys
+    import runner
+    V = runner.V
+    scratch = os.path.join(getattr(ctx, "scratch", os.path.join(V, "build", ctx.prop_id)), "gen")
+    os.makedirs(scratch, exist_ok=True)
+    gen_v = os.path.join(scratch, "Gen_c04_closures.v")
+    for stem in (gen_v[:-2], os.path.join(scratch, "C04_Equiv")):
+        for ext in (".vo", ".vos", ".vok", ".glob"):
+            try:
+                os.remove(stem + ext)
+            except OSError:
+                pass
+    equiv = os.path.join(V, "coq", "gen", "C04_Equiv.v")
+    src = open(equiv).read()
+    src_nc = re.sub(r"\(\*.*?\*\)", " ", src, flags=re.S)
+    thms = re.findall(r"^\s*Theorem\s+([\w']+)", src_nc, flags=re.M)
+    ctx.theorems = list(ctx.theorems) + [t for t in thms if t not in ctx.theorems]
+    ctx.obligations += len(thms)
+    r = subprocess.run([sys.executable, os.path.join(V, "gen", "c04_py2coq.py"), os.environ.get("VERIF_REPO", "/repo"), gen_v],
+                       capture_output=True, text=True, timeout=120)
+    if r.returncode != 0:
+        return False, {"theorem": thms[0], "error": "translator rejected the source (outside its subset): " + (r.stdout + r.stderr)[-600:]}
+    q = ["-Q", os.path.join(V, "coq", "theories"), "QV", "-Q", scratch, "QVGen"]
+    r = subprocess.run(["timeout", "300", "coqc"] + q + [gen_v], capture_output=True, text=True)
+    if r.returncode != 0:
+        return False, {"theorem": thms[0], "error": "regenerated definitions do not compile: " + (r.stdout + r.stderr)[-600:]}
+    dst = os.path.join(scratch, "C04_Equiv.v")
+    shutil.copy(equiv, dst)
+    r = subprocess.run(["timeout", "600", "coqc"] + q + [dst], capture_output=True, text=True)
+    out = r.stdout + r.stderr
+    if r.returncode != 0:
+        m_ = re.search(r"line (\d+), characters", out)
+        thm = None
+        if m_:
+            upto = "\n".join(src.splitlines()[:int(m_.group(1))])
+            names = re.findall(r"^\s*(?:Theorem|Lemma)\s+([\w']+)", upto, flags=re.M)
+            thm = names[-1] if names else None
+        return False, {"theorem": thm, "error": out[-800:]}
+    blocks = runner.parse_assumptions(out)
+    bad = [a for closed, axs in blocks for a in axs if a not in runner.ALLOWED_AXIOMS and a.split(".")[-1] not in runner.ALLOWED_AXIOMS]
+    if len(blocks) != len(thms) or bad:
+        return False, {"theorem": thms[0], "error": "assumption gate on regenerated proofs: %d blocks / %d theorems, disallowed %s" % (len(blocks), len(thms), bad)}
+    for t, (closed, axs) in zip(thms, blocks):
+        ctx.axioms[t] = "closed" if closed else sorted(set(axs))
+    ctx.discharged += len(thms)
+    return True, {}
+
+
 def run(ctx):
     ctx.rule = ("seeded generators; eq: real parameter vectors (multiples of scale/16, scales 1e-3..1e3; generic / sparse / zero / "
                 "already-feasible / physical), all four types, m=2..5, 1 qubit / qutrit / 2 qubits (qubit x qutrit thorough), both "
@@ -1046,7 +1111,26 @@ def run(ctx):
         "C04: certificate slack eps = 1e-10*s + 100*atol, delta = eps*s (s = Frobenius norm of the operator, atol = quara Settings atol)",
         "C04: all scales run under quara's default settings (atol 1e-13); only after a reported truncate_hs ValueError the case is re-run under Settings.set_atol(1e-14*scale)",
     ]
-    flow.standard_run(ctx, SUBS)
+    # flow.standard_run with this property's own translator tie (flow.regen_check is bound to gen/py2coq.py)
+    import runner
+    ok, info = runner.check_props(ctx)
+    ok2, info2 = regen_closures(ctx)
+    if not ok2:
+        ok, info = False, info2
+        ctx.note("regenerated closure-factory obligations (coq/gen/C04_Equiv.v) not discharged: %s" % str(info2)[:400])
+        # the tie is broken: widen the sweep of the sub-check that exercises the translated functions to find a concrete failing input
+        ctx.c04_tie_broken = True
+    if not ok:
+        ctx.discharged = min(ctx.discharged, ctx.obligations - 1)
+    for name, fn in SUBS:
+        if ctx.only is None or name in ctx.only:
+            fn(ctx)
+    if not ok and not ctx.violations:
+        ctx.violation("theorems", "Props/C04.v + coq/gen/C04_Equiv.v", "theorem-broken:%s" % info.get("theorem"),
+                      "theorem %s no longer checks: %s" % (info.get("theorem"), info.get("error", "")[-400:]),
+                      {"theorem": info.get("theorem"), "error": info.get("error")}, no_input=True)
+    elif not ok:
+        ctx.note("theorem obligations not discharged: %s" % info)
 
 
 def replay(ctx, doc):
